@@ -163,6 +163,11 @@ def gen_unit(rng, uid, opts):
                 # distinct field types are required by Wire; `later` already returns distinct types
                 st["fields"] = [("F%d" % n, d) for n, d in enumerate(deps)]
                 allf = rng.random() < 0.4
+                if rng.random() < opts.get("p_extra_fields", 0.5):
+                    # fields Wire must leave alone: blank ones (cannot be set at all) and prevented ones
+                    pool = [("_", "struct{}", ""), ("_", "int", ""), ("skip", "string", 'wire:"-"'),
+                            ("skip2", "*int", 'json:"a" wire:"-"'), ("_", "string", 'json:"b"')]
+                    st["extra"] = rng.sample(pool, rng.randint(1, 3))
                 add_item({"kind": "struct", "outs": [("v", i), ("p", i)], "deps": deps, "all": allf,
                           "struct": i, "pkg": st["pkg"]})
             elif x < p_fn + 0.27:
